@@ -315,7 +315,7 @@ func (r *Runner) Discharge(x *Exec, vc *VC) *Result {
 	}
 	if dir := os.Getenv("GOVC_SAVE"); dir != "" && (res.Status != "unsat" || os.Getenv("GOVC_SAVE_ALL") != "") {
 		os.MkdirAll(dir, 0o755)
-		os.WriteFile(filepath.Join(dir, unsafeName.ReplaceAllString(vc.Name, "_")+".smt2"), []byte(q), 0o644)
+		os.WriteFile(filepath.Join(dir, unsafeName.ReplaceAllString(vc.Name+"__"+vc.Trace, "_")+".smt2"), []byte(q), 0o644)
 	}
 	if res.Status == "" {
 		res.Status = "unknown"
